@@ -548,10 +548,11 @@ theorem cookieToLong_loc (l : Int) (h0 : 0 ≤ l) (h1 : l < 9223372036854775808)
   simp only [this, if_true]
   omega
 
-/-- fresh descriptor, cookie 0: `opendir`, no `seekdir` -/
+/-- fresh descriptor, cookie 0: `opendir` (then `rewinddir`), no `seekdir` -/
 theorem position_fresh (pm : Nat) (d : Dir) (path : Bytes) (mem : Mem) (hp : path.length < pm) :
     positionStream pm d path none mem 0 = .val (.inr (.at 0)) := by
-  simp [positionStream, hp, Gen.WasiPath.dirCookieStart, Gen.WasiPath.seekWhenCookie, opendir]
+  simp [positionStream, hp, Gen.WasiPath.dirCookieStart, Gen.WasiPath.seekWhenCookie, opendir,
+    Gen.WasiPath.readdirCallsRewind, rewinddir]
 
 /-- opened descriptor, cookie = a `d_next` value: `seekdir` puts the stream there, wherever it was -/
 theorem position_cookie (pm : Nat) (d : Dir) (path : Bytes) (hl : LocOK d) (s : Pos) (mem : Mem)
@@ -563,10 +564,11 @@ theorem position_cookie (pm : Nat) (d : Dir) (path : Bytes) (hl : LocOK d) (s : 
     not_false_eq_true, decide_true, if_true]
   rw [cookieToLong_loc _ (by omega) (hl.fits p hp), seekdir_loc d hl p hp]
 
-/-- opened descriptor, cookie 0: the stream stays where the previous call left it -/
+/-- opened descriptor, cookie 0: `rewinddir` puts the stream at the beginning, wherever it was -/
 theorem position_zero_open (pm : Nat) (d : Dir) (path : Bytes) (s : Pos) (mem : Mem) :
-    positionStream pm d path (some s) mem 0 = .val (.inr s) := by
-  simp [positionStream, Gen.WasiPath.seekWhenCookie, Gen.WasiPath.dirCookieStart]
+    positionStream pm d path (some s) mem 0 = .val (.inr (.at 0)) := by
+  simp [positionStream, Gen.WasiPath.seekWhenCookie, Gen.WasiPath.dirCookieStart,
+    Gen.WasiPath.readdirCallsRewind, rewinddir]
 
 /-! ### the client protocol -/
 
